@@ -259,6 +259,11 @@ def cells():
     for d in DIRS:
         out.append(('wrap/linbasex_quadrant/%s/Fine/NoOpt' % d, None,
                     "outcome(lambda: call_fn('linbasex_quadrant', HALF, direction=%r), HALF, 'linbasex')" % d))
+    # linbasex needs a whole square image: 1-D data and a single row must be refused
+    # by the function itself (Transform refuses them for every method: OneD / TwoRows)
+    for nm, arg in (('OneD', 'IM[3]'), ('OneRow', 'IM[3:4]'), ('ThreeRows', 'IM[3:6]')):
+        out.append(('wrap/linbasex_full/inverse/%s/NoOpt' % nm, None,
+                    "outcome(lambda: call_fn('linbasex', %s, direction='inverse'), IM, 'linbasex')" % arg))
     # image tools called directly with unknown names (must raise; search only)
     def multi(vals, tmpl):
         return "outcome_all([%s], IM)" % ', '.join("(%r, lambda: %s)" % (v, tmpl % v) for v in vals)
@@ -285,7 +290,7 @@ def expected(cid):
     if via == 'tools':
         return {'raise'}
     if via == 'wrap':
-        return {'inverse'} if d == 'inverse' else {'raise'}
+        return {'inverse'} if (d == 'inverse' and sh == 'Fine') else {'raise'}
     if d == 'sideways' or (d == 'forward' and m not in IMPLEMENTED_FWD):
         return {'raise'}
     if sh != 'Fine':
